@@ -59,7 +59,7 @@ def run_c10(ctx, chk):
     # D2 representation independence of the sparse grid in every mutator
     funcs = closures_of(ctx, F(GRID_FUNCS))
     na, nb = g.r_absent(ctx, chk, funcs)
-    chk.cover('materialisation sites', na.eps, ['draw', 'insert_characters', 'delete_characters', 'erase_characters', 'erase_in_line', 'erase_in_display', 'alignment_display'])
+    chk.cover('materialisation sites', na.eps, ['draw'])
     chk.cover('branched lookups on the grid', nb.eps, ['insert_characters', 'delete_characters', 'insert_lines', 'delete_lines'])
     # D3 rendering structure: rows ascending over 0..lines, columns ascending over 0..columns
     from .rules_c09 import loop_range
